@@ -268,6 +268,50 @@ def count_info(records):
     return shortcut, (sorted(NAMES.i(c) for c in eliminated) if eliminated else [])
 
 
+class HarnessTimeout(BaseException):
+    """the CPU budget of one case is used up (BaseException: not swallowed by `except Exception` around library calls)"""
+
+
+class TooManyCounts(BaseException):
+    """the count went on for more counts than any terminating count of that many candidates can need"""
+
+
+CASE_CPU_LIMIT = 6      # seconds of CPU per case (implementation side)
+
+
+class hard_guard:
+    """CPU-time guard on ITIMER_PROF / SIGPROF, independent of the SIGALRM alarms around the single library calls"""
+    def __init__(self, seconds=CASE_CPU_LIMIT):
+        self.seconds = seconds
+
+    def __enter__(self):
+        import signal
+
+        def fire(signum, frame):
+            raise HarnessTimeout(f'case used more than {self.seconds} s of CPU')
+        self.old = signal.signal(signal.SIGPROF, fire)
+        signal.setitimer(signal.ITIMER_PROF, self.seconds)
+
+    def __exit__(self, *a):
+        import signal
+        signal.setitimer(signal.ITIMER_PROF, 0)
+        signal.signal(signal.SIGPROF, self.old)
+        return False
+
+
+def count_cap(case):
+    """every count that does not raise fills a seat or removes a candidate: 4 x candidates + 10 counts are far more than enough"""
+    if 'votes' in case:
+        m = len(profile_cands(case['votes']))
+    else:
+        m = len(case.get('alloc') or [])
+    return 4 * m + 10 + 2 * int(case.get('n') or 0)
+
+
+def budget_clause(err):
+    return {'DoesNotTerminate': 'does_not_terminate', 'CaseExceedsTimeBudget': 'case_exceeds_time_budget'}.get(err)
+
+
 def canon_obj(o, depth=0, skip=()):
     """order-preserving canonical form of a python object graph (dicts keep their order; objects by class and attributes;
     callables by name), used to tell whether something was changed in place"""
@@ -308,7 +352,11 @@ def record_run(case, call, args=None, form='selector'):
         return v
 
     with DrawRecorder() as dr, LogTap() as tap:
+        cap = count_cap(case)
+
         def wrap_next(allocation, n_seats, total_n_votes, prev_gains={}, max_seats={}):
+            if len(counts) >= cap:
+                raise TooManyCounts(f'more than {cap} counts')
             tap.take()
             del quotas[:]
             rec = {'alloc_in': enc_alloc(allocation), 'prev': enc_seats(prev_gains)}
@@ -347,6 +395,9 @@ def record_run(case, call, args=None, form='selector'):
         msg = None
         try:
             res = call_with_timeout(lambda: call(dist, sel), 5)
+        except TooManyCounts as e:
+            res = {'err': 'DoesNotTerminate'}
+            msg = str(e)
         except Exception as e:      # noqa
             res = {'err': err_name(e)}
             msg = str(e)
